@@ -23,6 +23,22 @@ fn okhex(b: &[u8]) -> String {
 
 /// raw-byte decoder followed by re-encoding; the Pod conversions must agree (checked here too)
 fn decode_codec(codec: &str, b: &[u8]) -> String {
+    if codec == "rctx" {
+        use solana_zk_sdk::zk_elgamal_proof_program::proof_data::BatchedRangeProofContext;
+        let Ok(ctx) = bytemuck::try_from_bytes::<BatchedRangeProofContext>(b) else { return "err".into() };
+        let r: Result<(Vec<PedersenCommitment>, Vec<usize>), _> = (*ctx).try_into();
+        return match r {
+            Ok((comms, bls)) => {
+                // canonical re-encoding of what was decoded
+                let mut out = vec![0u8; 264];
+                if comms.len() > 8 || bls.len() > 8 { return "variant-mismatch:lengths".into() }
+                for (i, c) in comms.iter().enumerate() { out[32 * i..32 * i + 32].copy_from_slice(&c.to_bytes()); }
+                for (i, n) in bls.iter().enumerate() { if *n > 255 { return "variant-mismatch:bit-length".into() } out[256 + i] = *n as u8; }
+                okhex(&out)
+            }
+            Err(_) => "err".into(),
+        };
+    }
     match codec {
         "pubkey" => match ElGamalPubkey::try_from(b) {
             Ok(p) => {
@@ -521,6 +537,16 @@ pub fn op_elg(a: &[&str]) -> String {
                     return format!("variant-mismatch:threads{}", t);
                 }
             }
+            // a configured instance sent through serde (bincode, JSON) decodes like the original
+            for t in [1usize, 2, 4, 8] {
+                let mut d = ct.decrypt(&sk);
+                if d.num_threads(std::num::NonZeroUsize::new(t).unwrap()).is_err() { return "variant-mismatch:threads".into() }
+                let b: Option<solana_zk_sdk::encryption::discrete_log::DiscreteLog> = bincode::serialize(&d).ok().and_then(|x| bincode::deserialize(&x).ok());
+                let j: Option<solana_zk_sdk::encryption::discrete_log::DiscreteLog> = serde_json::to_string(&d).ok().and_then(|x| serde_json::from_str(&x).ok());
+                for (how, c) in [("bincode", b), ("json", j)] {
+                    match c { Some(c) => if c != d || c.decode_u32() != r1 { return format!("variant-mismatch:serde-{}-threads{}", how, t) }, None => return format!("variant-mismatch:serde-{}-failed", how) }
+                }
+            }
             // re-configuration: the last accepted thread count / batch size governs, whatever was set before
             for seq in [&[4usize, 1][..], &[8, 2], &[2, 1, 4], &[16, 1]] {
                 let mut d = sk.decrypt(&ct);
@@ -722,7 +748,17 @@ pub fn op_dlogseq(a: &[&str]) -> String {
             };
             if r && !lenient { return "err".into() }
         }
-        results.push(d.decode_u32());
+        // a configured instance survives serialization: the parsed copy is equal and decodes to the same answer
+        let via_bincode: Option<DiscreteLog> = bincode::serialize(&d).ok().and_then(|b| bincode::deserialize(&b).ok());
+        let via_json: Option<DiscreteLog> = serde_json::to_string(&d).ok().and_then(|t| serde_json::from_str(&t).ok());
+        let direct = d.decode_u32();
+        for (how, c) in [("bincode", via_bincode), ("json", via_json)] {
+            match c {
+                Some(c) => { if c != d || c.decode_u32() != direct { return format!("variant-mismatch:serde-{}", how) } }
+                None => return format!("variant-mismatch:serde-{}-failed", how),
+            }
+        }
+        results.push(direct);
     }
     if results[0] != results[1] { return format!("variant-mismatch:{:?}:{:?}", results[0], results[1]) }
     match results[0] { Some(x) => format!("some:{}", x), None => "none".into() }
@@ -752,7 +788,13 @@ pub fn op_dlog(a: &[&str]) -> String {
             let Some(n) = batch.parse::<usize>().ok().and_then(NonZeroUsize::new) else { return "bad-op".into() };
             if d.set_compression_batch_size(n).is_err() { return "err".into() }
         }
-        results.push(d.decode_u32());
+        let via_bincode: Option<DiscreteLog> = bincode::serialize(&d).ok().and_then(|b| bincode::deserialize(&b).ok());
+        let direct = d.decode_u32();
+        match via_bincode {
+            Some(c) => { if c != d || c.decode_u32() != direct { return "variant-mismatch:serde-bincode".into() } }
+            None => return "variant-mismatch:serde-bincode-failed".into(),
+        }
+        results.push(direct);
     }
     if results[0] != results[1] { return format!("variant-mismatch:{:?}:{:?}", results[0], results[1]) }
     // decoders do not disturb each other: the same decode while another caller keeps decoding (with threads) in the
